@@ -98,11 +98,9 @@ func (i IRI) MarshalJSON() ([]byte, error) {
 	if i == "" {
 		return nil, nil
 	}
-	b := make([]byte, 0)
-	JSONWrite(&b, '"')
-	JSONWriteS(&b, i.String())
-	JSONWrite(&b, '"')
-	return b, nil
+	b := bytes.Buffer{}
+	stringBytes(&b, []byte(i), false)
+	return b.Bytes(), nil
 }
 
 // UnmarshalBinary implements the encoding.BinaryUnmarshaler interface.
@@ -215,9 +213,9 @@ func (i IRIs) MarshalJSON() ([]byte, error) {
 	JSONWrite(&b, '[')
 	for k, iri := range i {
 		writeCommaIfNotEmpty(k > 0)
-		JSONWrite(&b, '"')
-		JSONWriteS(&b, iri.String())
-		JSONWrite(&b, '"')
+		sb := bytes.Buffer{}
+		stringBytes(&sb, []byte(iri), false)
+		JSONWrite(&b, sb.Bytes()...)
 	}
 	JSONWrite(&b, ']')
 	return b, nil
